@@ -20,6 +20,40 @@ type Gen struct {
 	// is not a value of this version of the type; an encoder may refuse it, but must encode it correctly if it does not.
 	OutsideRoot bool
 	usable      map[string]bool
+	force       map[string]int // pick labels answered without the explorer (set by the mixed-pair deviation of a list)
+}
+
+// MixedPairs adds, to every SEQUENCE OF whose element holds a CHOICE (directly or through mandatory components, up to
+// three levels down), one more choice point: the two-element list whose elements take each ordered pair of alternatives
+// of that CHOICE. As a single deviation it puts different alternatives next to each other in one list (a field that ends
+// in the middle of an octet followed by a field that starts with a 1 bit, a short item in front of a long one).
+var MixedPairs = true
+
+// firstChoice finds the first CHOICE reachable from typ through mandatory components; sub is the path suffix under
+// which Value will ask for its alternative.
+func (g *Gen) firstChoice(typ string, depth int) (sub string, alts int, ok bool) {
+	td := g.S.Types[typ]
+	if td == nil || depth > 3 {
+		return "", 0, false
+	}
+	if td.Kind == "choice" {
+		n := 0
+		for _, f := range td.Fields {
+			if g.Usable(f.Type) && !strings.HasPrefix(f.Type, "ProtocolIESingleContainer") {
+				n++
+			}
+		}
+		return "", n, n >= 2
+	}
+	for _, f := range td.Fields {
+		if refper.ParseTag(f.Tag).Optional || strings.HasPrefix(f.Type, "#") || strings.HasPrefix(f.Type, "[]") || strings.HasPrefix(f.Type, "?") {
+			continue
+		}
+		if s2, n, ok := g.firstChoice(f.Type, depth+1); ok {
+			return "." + f.Name + s2, n, true
+		}
+	}
+	return "", 0, false
 }
 
 func New(s *refper.Schema, c *explore.Chooser) *Gen {
@@ -27,6 +61,9 @@ func New(s *refper.Schema, c *explore.Chooser) *Gen {
 }
 
 func (g *Gen) pick(label string, n int) int {
+	if v, ok := g.force[label]; ok && v < n {
+		return v
+	}
 	if g.C == nil {
 		return 0
 	}
@@ -255,10 +292,23 @@ func (g *Gen) Value(typ string, p refper.Params, path string) *refper.Node {
 			return g.ieList(et, p, path)
 		}
 		a := SizeAlphabet(p, true)
-		n := a[g.pick(path+"#count", len(a))]
+		ci := g.pick(path+"#count", len(a))
+		n := a[ci]
 		out := &refper.Node{Kind: "list"}
 		ep := p
 		ep.SizeExt, ep.SizeLB, ep.SizeUB = false, nil, nil
+		if MixedPairs && ci == 0 && (p.SizeUB == nil || *p.SizeUB >= 2) && (p.SizeLB == nil || *p.SizeLB <= 2) {
+			if sub, alts, ok := g.firstChoice(et, 0); ok {
+				if m := g.pick(path+"#mixed-pair", alts*alts); m > 0 {
+					if g.force == nil {
+						g.force = map[string]int{}
+					}
+					g.force[fmt.Sprintf("%s[0]%s#alt", path, sub)] = m / alts
+					g.force[fmt.Sprintf("%s[1]%s#alt", path, sub)] = m % alts
+					n = 2
+				}
+			}
+		}
 		for i := int64(0); i < n; i++ {
 			out.Kids = append(out.Kids, g.Value(et, ep, fmt.Sprintf("%s[%d]", path, i)))
 		}
